@@ -1,7 +1,7 @@
 (* C17 entry points of the extracted model. *)
 From Coq Require Extraction ExtrOcamlBasic ExtrOcamlString.
 From Coq Require Import List Arith Bool.
-Require Import TT.Model.Str TT.Model.C08Fingerprint TT.Model.C08Run.
+Require Import TT.Model.Str TT.Model.C08Fingerprint TT.Model.C08Run TT.Model.C17History TT.Model.C17Trunc.
 Import ListNotations.
 
 Definition c17_trace (p : project) (c : config) (h : list hstep) : list hobs :=
@@ -30,5 +30,45 @@ Definition c17_ok (binding : bool) (r_fault : cresult) (vouches_after_fault curr
 Definition c17_record_ok (r_fault : cresult) (record_rewritten : bool) : bool :=
   match r_fault with Failure => negb record_rewritten | _ => true end.
 
+(* ---- faults after the open with the removal succeeding or failing (Model/C17Trunc.v) ----
+   the state the model reaches after the steps h (same transitions as trace, observations dropped) *)
+Fixpoint c17_state_after (st : cstate) (h : list hstep) : cstate :=
+  match h with
+  | [] => st
+  | HSet p c :: h' => c17_state_after {| s_src := p; s_cfg := c; s_out := s_out st; s_cache := s_cache st |} h'
+  | HDelete f :: h' => c17_state_after (step_c true st (Delete _ _ _ _ f)) h'
+  | HDropCache :: h' => c17_state_after (step_c true st (DropCache _ _ _ _)) h'
+  | HCorrupt f :: h' =>
+      c17_state_after {| s_src := s_src st; s_cfg := s_cfg st;
+                         s_out := upd fname tree fname_eqb (s_out st) f (Some (TN [TN []])); s_cache := s_cache st |} h'
+  | HRun w flag fault :: h' => c17_state_after (snd (run_c true w flag fault st)) h'
+  end.
+
+Record post_obs := { po_class : bool;          (* kf_C17_rmfail on the state before the faulty run *)
+                     po_fault : cresult;       (* result of the faulty run (run17_c, FPost k n rm_ok) *)
+                     po_left : bool;           (* something is left under the name of the file whose write failed *)
+                     po_left_complete : bool;  (* ... and it is the complete content *)
+                     po_vouches : bool;        (* a non-forced run would answer up to date *)
+                     po_recovery : cresult;    (* the next non-forced run, after the steps h2 *)
+                     po_current : bool }.      (* everything current after it *)
+
+Definition c17_post (p : project) (c : config) (h : list hstep) (w : sched) (flag : bool) (k n : nat) (rm_ok : bool)
+                    (h2 : list hstep) : post_obs :=
+  let st := c17_state_after (init_state p c) h in
+  let ft := FPost k n rm_ok in
+  let r1 := run17_c w flag (Some ft) st in
+  let st2 := c17_state_after (snd r1) h2 in
+  let r2 := run_c true w false None st2 in
+  let tgt := nth_error (files w (s_src st) (s_cfg st)) k in
+  {| po_class := kf_C17_rmfail w ft st;
+     po_fault := fst r1;
+     po_left := match tgt with Some (f, _) => match s_out (snd r1) f with Some _ => true | None => false end | None => false end;
+     po_left_complete := match tgt with
+                         | Some (f, x) => match s_out (snd r1) f with Some y => tree_eqb x y | None => false end
+                         | None => false end;
+     po_vouches := cache_hit_c true w st2;
+     po_recovery := fst r2;
+     po_current := all_current w (snd r2) |}.
+
 Extraction Language OCaml.
-Extraction "tt_c17.ml" c17_trace c17_fault_index c17_ok c17_record_ok.
+Extraction "tt_c17.ml" c17_trace c17_fault_index c17_ok c17_record_ok c17_post.
